@@ -59,6 +59,16 @@ def augment_exception_message_and_reraise(exception, message):
     proxy = ExceptionProxy.__new__(ExceptionProxy, *exception.args)
   except TypeError:
     proxy = ExceptionProxy.__new__(ExceptionProxy)
+  # The interpreter reads some builtin fields (e.g. `StopIteration.value` in
+  # `yield from`) straight from the C struct: let the builtin base fill them in.
+  for base in type(exception).__mro__:
+    init = vars(base).get('__init__')
+    if isinstance(init, type(object.__init__)):  # The first C-level `__init__`.
+      try:
+        init(proxy, *exception.args)
+      except Exception:  # pylint: disable=broad-except
+        pass
+      break
   proxy.args = exception.args  # `args` is a C-level slot: never reaches __getattr__.
   # Instance attributes that shadow class-level defaults never reach __getattr__.
   proxy.__dict__.update(getattr(exception, '__dict__', {}))
